@@ -136,6 +136,10 @@ func c17scenario(c *c20ctx, fam string, prog [][]string, lat int, expiry bool) {
 	}
 	name := fmt.Sprintf("Memoize(%s; latency=%d; expiry=%t)", strings.Join(th, " ‖ "), lat, expiry)
 	janitor := fam == "expiry-janitor"
+	outcomes := 2 // value | error
+	if fam == "seq" || fam == "2x1" || fam == "2x(2,1)" || thorough {
+		outcomes = 3 // ... | error together with a value
+	}
 	if janitor {
 		name = fmt.Sprintf("Memoize(%s; latency=%d; expiry=3, cleanup-interval=2)", strings.Join(th, " ‖ "), lat)
 	}
@@ -211,11 +215,17 @@ func c17scenario(c *c20ctx, fam string, prog [][]string, lat int, expiry bool) {
 						for i := 0; i < lat; i++ {
 							vrt.Sched("computation")
 						}
-						e.ok = vrt.Choose(2) == 0
+						// outcome: a value, an error, or an error together with a (partial) value -- the
+						// last one is still an error result and must not be cached
+						oc := vrt.Choose(outcomes)
+						e.ok = oc == 0
 						inflight[k]--
 						e.end = vrt.Stamp()
 						if !e.ok {
 							e.err = errors.New(fmt.Sprintf("error of %s#%d", k, e.n))
+							if oc == 2 {
+								return item(valueOf(k, e.n)), e.err
+							}
 							return nil, e.err
 						}
 						return item(valueOf(k, e.n)), nil
@@ -265,6 +275,11 @@ func c17scenario(c *c20ctx, fam string, prog [][]string, lat int, expiry bool) {
 				}
 				if cl.err == nil && cl.hasVal && e.ok && valueOf(e.key, e.n) == cl.val {
 					src = e
+				}
+			}
+			for _, e := range execs {
+				if cl.err == nil && cl.hasVal && !e.ok && valueOf(e.key, e.n) == cl.val {
+					return "Memoize/error-was-cached", fmt.Sprintf("call %s returned value %d with a nil error, but the execution that produced it (#%d) ended in an error: an error result must not be cached or served as a success", cl.key, cl.val, e.n)
 				}
 			}
 			switch {
